@@ -54,6 +54,7 @@ DIRECTED = [
     ("futures-in-several-functions", "w", "package a:b;\ninterface i { f1: func(x: future<u8>); f2: func(x: future<u16>) -> stream<u8>; f3: func(x: stream<string>); }\nworld w { import i; export i; }\n"),
     ("async-export-returning-string", "w", "package a:b;\nworld w { export run-it: async func() -> string; }\n"),
     ("world-level-resource", "w", "package a:b;\nworld w { resource x; export f: func() -> x; }\n"),
+    compz.PAYLOAD_INDEX_STRESS,
 ]
 ASYNC_TYPE_RULE = "requires an async function type"
 
@@ -70,6 +71,10 @@ def classify(backend, issue):
         msg = re.sub(r"\(at offset 0x[0-9a-f]+\)", "", issue.get("detail", ""))
         msg = msg.split(": ")[-1] if len(msg) > 120 else msg
         return "%s:encoder-reject:%s" % (backend, compz.normalise(msg))
+    if kind == "payload-index-kind":
+        return "%s:payload-intrinsic-index:kind-mismatch" % backend
+    if kind == "payload-index-duplicate-type":
+        return "%s:payload-intrinsic-index:duplicate-type" % backend
     if kind.startswith("import"):
         module, _, n = name.partition("::")
         if kind == "import-unoffered" and re.search(r"\[(future|stream)-[a-z-]+-(\d+|unit)\]", n):
